@@ -19,7 +19,8 @@ fn find_content_string(input: &str) -> Option<&str> {
     let mut state = FindState::Idle;
 
     for current in input.chars().rev() {
-        pos += 1;
+        // Position in bytes (from the end of the input), since it is used to slice the input
+        pos += current.len_utf8();
         match state {
             FindState::Idle => {
                 if current == '/' {
